@@ -26,9 +26,9 @@ import ast
 from ..cfg import cfg_of
 from ..core import Ctx, key_of
 from ..dep import data, full
-from ..model import AnchorMissing, dotted, norm, own_nodes
+from ..model import AnchorMissing, Inconclusive, dotted, norm, own_nodes
 from ..order import interval_profile, matches, order_table
-from .common import facts_of, returns
+from .common import facts_of, key_of_text, returns
 
 META = {
     "level": "other",
@@ -54,6 +54,72 @@ def memo_rule(ctx: Ctx, rid: str):
     from .common import process_state_rule
     process_state_rule(ctx, rid, [ctx.repo.func("ResourceScenario.available"), ctx.repo.func("ResourceScenario.onShift")],
                        "the calendar answer for one slot is given for another", census=False)
+
+
+def blocked_interval_rule(ctx: Ctx, rid: str):
+    """Leave intervals are marked half-open in slots, [slot(start), slot(end)): no slot before the leave and no slot after its end
+    is blocked, and the sibling loops (project-wide and own leaves) agree  (C02 R02.13 / C08 R08.11)."""
+    from ..order import affine
+    fn = ctx.repo.func("ResourceScenario.initScoreboard")
+
+    def nearest_def(name: str, before: ast.AST):
+        """the assignment to `name` closest before `before` (by position) inside the function"""
+        best = None
+        for d in own_nodes(fn):
+            if isinstance(d, (ast.Assign, ast.AnnAssign)) and d.value is not None and d.lineno < before.lineno \
+                    and any(isinstance(t, ast.Name) and t.id == name for t in (d.targets if isinstance(d, ast.Assign) else [d.target])):
+                if best is None or d.lineno > best.lineno:
+                    best = d
+        return best
+
+    def unclamp(e):
+        # max(x, 0) / min(x, size): clipping to the slot table does not move a bound that lies inside it
+        while isinstance(e, ast.Call) and isinstance(e.func, ast.Name) and e.func.id in ("max", "min") and len(e.args) == 2:
+            rest = [a for a in e.args if not (isinstance(a, ast.Constant) or norm(a) in ("size", "self.project.scoreboardSize()", "len(self.scoreboard)"))]
+            if len(rest) != 1:
+                break
+            e = rest[0]
+        return e
+
+    def is_root(e):
+        return isinstance(e, ast.Call) and isinstance(e.func, ast.Attribute) and e.func.attr == "dateToIdx"
+    n = 0
+    for loop in own_nodes(fn):
+        if not (isinstance(loop, ast.For) and isinstance(loop.iter, ast.Call) and norm(loop.iter.func) == "range" and len(loop.iter.args) == 2):
+            continue
+        def bound(e, depth=0, loop=loop):
+            """(root text, offset) of a range bound: clamps to the slot table dropped, local names followed to their nearest
+            preceding definition, +/- integer constants accumulated"""
+            if depth > 8:
+                return None
+            e = unclamp(e)
+            if is_root(e):
+                return (norm(e), 0)
+            if isinstance(e, ast.Name):
+                d = nearest_def(e.id, loop)
+                return bound(d.value, depth + 1) if d is not None else None
+            if isinstance(e, ast.BinOp) and isinstance(e.op, (ast.Add, ast.Sub)) and isinstance(e.right, ast.Constant) and isinstance(e.right.value, int):
+                a = bound(e.left, depth + 1)
+                return (a[0], a[1] + (e.right.value if isinstance(e.op, ast.Add) else -e.right.value)) if a else None
+            if isinstance(e, ast.Call) and isinstance(e.func, ast.Name) and e.func.id == "int" and len(e.args) == 1:
+                return bound(e.args[0], depth + 1)
+            return None
+        offs = [(which, e, bound(e)) for which, e in zip(("start", "end"), loop.iter.args)]
+        if not all(a is not None and f".interval.{which}" in a[0] or (a is not None and a[0].endswith(f".{which})")) for which, _e, a in offs):
+            if any(a is not None and ".interval." in a[0] for _w, _e, a in offs) or any("interval" in norm(e) for _w, e, _a in offs):
+                raise Inconclusive(f"initScoreboard:{loop.lineno}: bounds {norm(loop.iter)} of an interval loop are not slot(start) + c / slot(end) + c")
+            continue
+        n += 1
+        for which, e, a in offs:
+            ok = a[1] == 0
+            ctx.ob(rid, f"{fn.qual}: loop {norm(loop.iter)[:60]}: {which} bound = {a[0][:50]} {a[1]:+d}", (fn, loop), ok,
+                   f"the blocked range {'begins' if which == 'start' else 'ends'} with the slot of the interval's {which}" if ok else
+                   (f"the blocked range ends {a[1]:+d} slot(s) from the slot the interval ends in: the slot that begins at the end of a leave is "
+                    "blocked although the resource works in it" if which == "end" and a[1] > 0 else
+                    f"the blocked range is moved by {a[1]:+d} slot(s) at its {which}: a slot inside the leave stays bookable, or a slot outside it is blocked"),
+                   key=key_of_text(rid, fn.qual, f"{which} {a[0]}"))
+    if n < 2:
+        raise AnchorMissing(f"initScoreboard: {n} leave interval loops found (project-wide and own leaves expected)")
 
 
 def run(ctx: Ctx):
@@ -305,6 +371,7 @@ def run(ctx: Ctx):
                    key=key_of("R02.6", wh, n))
     # ---------------------------------------------------------------- R02.8 memo-key soundness in the calendar decision
     memo_rule(ctx, "R02.8")
+    blocked_interval_rule(ctx, "R02.13")
     # ---------------------------------------------------------------- R02.10 project-level working hours reach the default calendar
     # the grammar accepts `workinghours` as a project attribute and the builder stores it; the calendar used for resources
     # without hours of their own must consult it
